@@ -20,7 +20,8 @@ RULE = ("dec <accessor> <encW(tree) ++ suffix>: wire trees = all scalar shapes a
         "each decoded through every accessor (matching and non-matching).  Oracle (orchestrator, from the tree): matching accessor -> exact "
         "data-model value and position; non-matching -> an error; every strict prefix through a matching accessor -> err eoi.  "
         "Non-trivial: the implementation returned ok or a non-eoi error.")
-ASSUMPTIONS = ["typed decoding through the ~100 built-in Decode impls is exercised by the C01/C02 streams (tdec); the theorems here are about the accessors"]
+ASSUMPTIONS = ["bare minicbor::data::Tag (a head reader, K9) is excluded from typed_sound by NoBareTag",
+               "FitsSlice: the encoding is shorter than 2^64 bytes (true of every Rust slice)"]
 
 
 def ann(exp):
